@@ -14,7 +14,8 @@ import anyio
 
 from ..explore import E1Check, new_summary, run_main_asyncio
 
-ANNS = ("T", "Optional[T]", "T | None", "'T'", "'Optional[T]'", "'T | None'", "future")
+ANNS = ("T", "Optional[T]", "T | None", "'T'", "'Optional[T]'", "'T | None'", "future",
+        "None | T", "Union[None, T]", "'Union[None, T]'")
 STATES = ("static", "sync-factory", "async-factory", "inherited", "generated-in-parent", "missing", "broken-factory")
 TEMPLATES = {
     # name: (signature with {r1} {r2} placeholders, ordinary parameter names, injected parameter names)
@@ -45,13 +46,14 @@ def gen_source(template: str, ann1: str, ann2: str, name1: str, name2: str, is_a
     r1 = f"r1: {ann(ann1, 'TA')} = {marker(name1)}"
     r2 = f"r2: {ann(ann2 if ann2 != 'future' else 'future', 'TB')} = {marker(name2)}"
     params = sig.format(r1=r1, r2=r2)
-    names = [p.strip().split(":")[0].split("=")[0].strip() for p in params.replace("*,", "").split(",") if p.strip() and p.strip() != "*"]
+    bare = sig.format(r1="r1", r2="r2")  # (names from the template, not from the annotated text: annotations may contain commas)
+    names = [p.strip().split(":")[0].split("=")[0].strip() for p in bare.replace("*,", "").split(",") if p.strip() and p.strip() != "*"]
     body = "    REC.append({" + ", ".join(f"{n!r}: {n}" for n in names) + "})\n    return 'ret'\n"
     head = ("async def" if is_async else "def") + f" f({params}):\n"
     lines = []
     if future:
         lines.append("from __future__ import annotations")
-    lines.append("from typing import Optional")
+    lines.append("from typing import Optional, Union")
     lines.append("from asphalt.core import inject, resource")
     if local:
         lines.append("def make():")
@@ -122,7 +124,7 @@ def all_cases(tier: str) -> list:
                                         for style in ("pos", "kw"):
                                             if tier == "quick":
                                                 h = hash((template, ann1, ann2, name1, is_async, local, s1, s2, caller, style)) % 7
-                                                if h not in (0,) and not (ann1 in ("Optional[T]", "T") and caller == "ctx" and style == "pos" and not local):
+                                                if h not in (0,) and not (ann1 in ("Optional[T]", "T", "None | T", "Union[None, T]") and caller == "ctx" and style == "pos" and not local):
                                                     continue
                                             out.append({"template": template, "ann1": ann1, "ann2": ann2, "name1": name1, "name2": "default",
                                                         "async": is_async, "local": local, "s1": s1, "s2": s2, "caller": caller, "style": style})
